@@ -1,12 +1,12 @@
 import NetVerif.Driver.Util
 import NetVerif.Model.Qpack
-import NetVerif.Model.QpackHuff
+import NetVerif.Model.QpackHuffman
 /-! Line-protocol driver for the QPACK model (C33). Stateless: every op runs on a fresh stream. -/
 open NetVerif.Driver NetVerif.Model.H3Stream NetVerif.Model.Qpack
 
 namespace NetVerif.Driver.C33
 
-def H : Huff := NetVerif.Model.QpackHuff.huff
+def H : Huff := NetVerif.Model.QpackHuffman.huff
 
 def errTag : Err → String
   | .eof => "eof"
